@@ -465,7 +465,9 @@ def get_kern_from_ekern(ekern_content: str) -> str:
 
         ```
     """
-    content = ekern_content.replace("**ekern", "**kern")  # TODO Constante según las cabeceras
+    content = ekern_content
+    for header in HEADERS:  # '**ekern' -> '**kern', '**etext' -> '**text', ...
+        content = content.replace(f"**e{header[2:]}", header)
     content = content.replace(TOKEN_SEPARATOR, "")
     content = content.replace(DECORATION_SEPARATOR, "")
 
